@@ -66,9 +66,21 @@ macro_rules! real {
 	}};
 }
 
+/// Callback invoked (with recording paused) right after every recorded operation.
+pub static ON_OP: Mutex<Option<Box<dyn FnMut(usize, &Op) + Send>>> = Mutex::new(None);
+
 fn rec(op: Op) {
 	if REC.swap(false, SeqCst) {
-		OPS.lock().unwrap().push(op);
+		let n = {
+			let mut ops = OPS.lock().unwrap();
+			ops.push(op.clone());
+			ops.len()
+		};
+		if let Ok(mut cb) = ON_OP.try_lock() {
+			if let Some(f) = cb.as_mut() {
+				f(n, &op);
+			}
+		}
 		REC.store(true, SeqCst);
 	}
 }
